@@ -17,6 +17,31 @@ Theorem C04_error_site_codes :
   code_cli_unexpected = E_FRAME_UNEXPECTED /\ code_srv_unexpected = E_FRAME_UNEXPECTED.
 Proof. exact error_site_codes. Qed.
 
+Theorem C04_remaining_codes :
+  code_pc_quic_unknown = E_CLOSED_CRITICAL /\ code_pnv_internal = 258 /\ code_cli_bidi = E_STREAM_CREATION.
+Proof. exact remaining_codes. Qed.
+
+(* whole-body anchors: poll_accept_recv (accept loop, guards, `continue`s, retain), poll_control, process_goaway,
+   poll_grease_stream, into_stream, poll_next_varint, poll_type, the server's accept / shutdown /
+   poll_accept_request_stream_internal / poll_control (the `while` loop) / poll_next_control and the client's
+   poll_close are, statement for statement, the bodies the model was written against; after a deliberate change of
+   one of them the model is re-read against the code and the constant updated *)
+Theorem C04_source_shapes :
+  shape_poll_accept_recv = 741454059817761024 /\
+  shape_inner_poll_control = 610605719855264594 /\
+  shape_process_goaway = 849770796200219870 /\
+  shape_poll_grease_stream = 402698484532604429 /\
+  shape_into_stream = 604109462653454260 /\
+  shape_poll_next_varint = 722813221928172113 /\
+  shape_poll_type = 607312072019453852 /\
+  shape_server_accept = 1127531358984613172 /\
+  shape_server_shutdown = 832965435934073669 /\
+  shape_server_poll_accept_request = 156635046848499470 /\
+  shape_server_poll_control = 1019207998921379069 /\
+  shape_server_poll_next_control = 786539864495094159 /\
+  shape_client_poll_close = 457050589089166871.
+Proof. exact source_shapes. Qed.
+
 (* stream type table, the types followed by a second varint, and the decision points of poll_next_varint /
    poll_control / process_goaway the proofs below rely on *)
 Theorem C04_source_decisions :
@@ -190,7 +215,54 @@ Theorem C04_pending_streams_settled :
     forall id a, In (id, a) (c_pending c') -> uni_header (sn_flat x id) = None /\ sn_end x id = Open.
 Proof. exact polled_streams_settled. Qed.
 
+(* Liveness of the running driver.  A poll that leaves the driver running (phase run, or "accept answered None"),
+   and that was not spent waiting for the server's own last GOAWAY to be written, leaves nothing delivered unexamined:
+   no stream is left unaccepted, every stream still pending has an incomplete header and is open, and the control
+   stream has been read to the end of what was delivered - its RFC 7.1 segmentation is exactly the frames taken,
+   followed by nothing complete, and the stream is open. *)
+Theorem C04_poll_settles :
+  forall role grease wt credit dflt h,
+    whist_ok (h ++ [EPoll]) ->
+    let d0 := run_history h (new_drv role grease wt credit dflt) in
+    let d := run_history (h ++ [EPoll]) (new_drv role grease wt credit dflt) in
+    let x := sent_of (h ++ [EPoll]) in
+    d_ph d0 <> PhShutdown -> d_ph d = PhRun \/ d_ph d = PhNone ->
+    (forall id a, In (id, a) (c_pending (conn_of d)) -> uni_header (sn_flat x id) = None /\ sn_end x id = Open) /\
+    w_incoming (world_of d) = [] /\
+    (forall id fs, c_control (conn_of d) = Some (id, fs) ->
+       exists rest, In id (sn_ann x) /\ uni_header (sn_flat x id) = Some (ST_CONTROL, None, rest) /\
+         frame_outcome settings_verdict rest (sn_end x id) = (map TFrame (c_taken (conn_of d)), Waiting) /\
+         sn_end x id = Open).
+Proof. exact poll_settles. Qed.
+
+(* ... and nothing complete is left unanswered: under the same premises what the peer sent contains no complete
+   violation of the statement (no second control / QPACK encoder / QPACK decoder stream with a complete header, every
+   control-stream frame accepted by the rule table, SETTINGS-first included), and every announced stream whose
+   complete header names an unknown type has been sent STOP_SENDING.  Contrapositive: once the delivered bytes
+   contain a complete violation, a poll does not leave the driver running (it failed - C04_error_is_allowed says
+   with which codes - or left the model's domain: panic / outside / indeterminate write size). *)
+Theorem C04_poll_complete :
+  forall role grease wt credit dflt h,
+    whist_ok (h ++ [EPoll]) ->
+    let d0 := run_history h (new_drv role grease wt credit dflt) in
+    let d := run_history (h ++ [EPoll]) (new_drv role grease wt credit dflt) in
+    let x := sent_of (h ++ [EPoll]) in
+    d_ph d0 <> PhShutdown -> d_ph d = PhRun \/ d_ph d = PhNone ->
+    hs_hard (uni_spec_with settings_verdict (srole_of role) (sdescs x)) = [] /\
+    (forall id, In id (hs_stops (uni_spec_with settings_verdict (srole_of role) (sdescs x))) ->
+       exists code, In (id, code) (l_stops (w_log (world_of d)))).
+Proof. exact poll_complete. Qed.
+
 (* ---- non-vacuity ---- *)
+(* the premises of the two liveness theorems hold for a server that saw an unknown-type stream, and STOP_SENDING went out *)
+Example C04_liveness_inhabited :
+  let h := [EPoll; ENewUni 2; EArrive 2 (Chunk [0; 4; 0]); ENewUni 6; EArrive 6 (Chunk [33])] in
+  let d0 := run_history h (new_drv RServer true false 4 None) in
+  let d := run_history (h ++ [EPoll]) (new_drv RServer true false 4 None) in
+  d_ph d0 <> PhShutdown /\ d_ph d = PhRun /\
+  hs_stops (uni_spec_with settings_verdict SServer (sdescs (sent_of (h ++ [EPoll])))) = [6] /\
+  l_stops (w_log (world_of d)) = [(6, 259)].
+Proof. vm_compute. repeat split. discriminate. Qed.
 (* push id 5 as a two-byte varint, one byte per chunk, a poll after each *)
 Example C04_header_reader_inhabited :
   h_st (fold_left arun_step [HArrive (Chunk [1]); HPoll; HArrive (Chunk [64]); HPoll; HArrive (Chunk [5]); HPoll] arun_init)
@@ -227,6 +299,8 @@ Proof. vm_compute. reflexivity. Qed.
 
 Print Assumptions C04_error_site_codes.
 Print Assumptions C04_source_decisions.
+Print Assumptions C04_remaining_codes.
+Print Assumptions C04_source_shapes.
 Print Assumptions C04_header_reader.
 Print Assumptions C04_poll_type_one_call.
 Print Assumptions C04_control_automaton.
@@ -237,3 +311,5 @@ Print Assumptions C04_error_is_allowed.
 Print Assumptions C04_no_error_unless_allowed.
 Print Assumptions C04_stream_types.
 Print Assumptions C04_pending_streams_settled.
+Print Assumptions C04_poll_settles.
+Print Assumptions C04_poll_complete.
